@@ -6,7 +6,7 @@ use super::{Stats, Tier};
 use crate::exec::{Ctx, StepResult};
 use crate::gen::{SizeMix, WriteMix};
 use crate::model::Model;
-use crate::blob::Algo;
+use crate::blob::{Algo, Blob};
 use crate::ops::*;
 
 fn c14_cfg(tier: Tier) -> ProgCfg {
@@ -147,6 +147,22 @@ fn c14_grid(_tier: Tier) -> Vec<Program> {
                 }
             }
         }
+    }
+    // a writer stays open while 70 000 others are created and dropped in the same process
+    // (counters that wrap, tables that fill up): it commits as if nothing had happened
+    for fl in [Fl::Sync, Fl::Async] {
+        let mut w = WriteSpec::simple(Some(0), 0);
+        w.entry = WEntry::Opts;
+        w.chunks = vec![3];
+        w.churn = 70_000;
+        let mut other = WriteSpec::simple(Some(1), 1);
+        other.entry = WEntry::Opts;
+        other.chunks = vec![2];
+        out.push(Program {
+            keys: vec!["long-lived".into(), "later".into()],
+            blobs: vec![Blob::new(40, 1), Blob::new(9, 2)],
+            steps: vec![Step { op: Op::Write(w), fl }, Step { op: Op::Write(other), fl }, Step { op: Op::Read { key: 0 }, fl }, Step { op: Op::Read { key: 1 }, fl }],
+        });
     }
     out
 }
